@@ -8,6 +8,26 @@ TRUST = ("Trusted base: the gosym interpreter (go/ssa semantics), the stubs list
          "the equality-rewriting layer in front of the solver is audited against cvc5 on a sample in the quick tier and bypassed for assertions in the thorough tier.")
 
 CLAIMED = {
+ "C01": ("SPDX 2.3 JSON write-then-read on documents built from decisions and symbolic identifiers/values, the JSON text layer cut at the value tree "
+         "(encoding/json modelled, custom Marshal/Unmarshal code of the SPDX library interpreted): node set with kinds, typed edge set for every "
+         "relationship type the model shares with SPDX, root set; per attribute of packages and files (one symbolic field at a time, every enum number); "
+         "a second pass changes nothing. N<=3 nodes, E<=2 edges, 2 targets.", "3.C01"),
+ "C02": ("CycloneDX 1.4/1.5 write-then-read: every tree shape on up to 4 (quick) / 5 (thorough) nodes times every order of the stored contains edges "
+         "(one edge per pair or grouped per parent), node set and parent function; per CycloneDX-expressible attribute with symbolic values and every "
+         "enum number (hash algorithms, external reference types, purposes) at root / top-level / nested position; serial number, numeric version, "
+         "lifecycle types; second pass. Multi-licence loss is a listed known finding.", "3.C02"),
+ "C03": ("Documents written as SPDX 2.3 / CycloneDX 1.4/1.5 from graphs with symbolic identifiers (dangling, repeated, self-referencing shapes by decision) "
+         "are self-contained: every reference in the emitted value tree resolves inside it, and reading it back gives a closed graph.", "3.C03"),
+ "C04": ("Parsers on damaged input: every single structural fault (null, wrong type a/b, absent, empty, duplicated) at every position of a reference "
+         "CycloneDX and SPDX value tree (quick), pairs of faults (thorough) and hand-picked shapes: the reader returns a document or an error; "
+         "no panic (recover semantics modelled), no process exit. Byte-level JSON syntax errors are outside (encoding/json is cut).", "3.C04"),
+ "C05": ("Parsed graphs: closure of roots/edge endpoints, non-empty and input-unique identifiers, generated identifiers (count, alphabet, distinctness) "
+         "for CycloneDX trees of <=3/4 components with symbolic / absent / repeated references and SPDX documents of <=2/3 elements with "
+         "decision-chosen relationships; parsing twice, with the format stated, and behind a symbolic leading layout byte gives identical graphs; "
+         "NewNodeIdentifier on seeds of <=2/3 symbolic code points (<= U+2FFFF): non-empty, identifier-safe alphabet, deterministic.", "3.C05"),
+ "C06": ("Format detection as a decision table over the decoded top-level declaration (symbolic bomFormat/specVersion/spdxVersion, present or absent), "
+         "the line sniffer over <=2/3 symbolic text lines, the rewind contract incl. failing Seek, agreement between writer output and sniffer for "
+         "every registered format. JSON byte syntax is outside (encoding/json is cut).", "3.C06"),
  "C08": ("One inductive step per editing operation (union, intersect, add, remove, relate node/list, the three extractions) from an arbitrary well-formed "
          "pre-state with symbolic identifiers: post-state well-formed, normalised where the property says so, RemoveNodes exact. Covers every equality pattern "
          "of ids/endpoints/roots within N<=3 nodes, E<=2 edges, T<=1 (quick) / 2 (thorough) targets, R<=1..3 roots; sequences follow by induction.", "3.C08"),
@@ -67,7 +87,7 @@ def main():
             m["not_applicable"].append({"property_id": p, "reason": NA.get(p, NA_REASON)})
     json.dump(m, open("/verif/MANIFEST.json", "w"), indent=1)
 
-NA = {p: "the abstract JSON layer (encoding/json cut at the value tree) is still under construction in this session; the property is not claimed yet" for p in ["C01","C02","C03","C04","C05","C06"]}
+NA = {}
 
 if __name__ == "__main__":
     main()
